@@ -106,9 +106,9 @@ func scenarioC03(r *Run) {
 	}
 	fm := GenFaultMix(t)
 	ent := NewEntropy(uint64(t.U32("entropy.seed")))
-	to := TrafficOpts{Spec: SpecOpts{MaxExtra: 4, MaxSigner: 3, Cheap: t.Bool(2, 3, "c03.cheap")}, ForeignPct: 30, Detach: true}
+	to := TrafficOpts{Spec: SpecOpts{MaxExtra: 4, MaxSigner: 3, Cheap: t.Bool(2, 3, "c03.cheap"), BigOK: bigOK(r, "c03.big")}, ForeignPct: 30, Detach: true}
 	var a *Wire
-	switch t.Pick([]int{40, 1, 2}, "c03.source") {
+	switch t.Pick([]int{40, 1, 2, 1}, "c03.source") {
 	case 1:
 		// a pre-mined RSASSA-PSS message whose signature starts with a zero
 		// byte (1 in 256 signatures; found once per process by searching
@@ -127,6 +127,19 @@ func scenarioC03(r *Run) {
 		a = r.ForeignWire(t, s, k, ent, false, 0, false)
 		a.Desc = "byzantine peer (signs the re-encoded headers) " + s.Kind.String()
 		r.Fired("peer.signs-over-reencoded-headers")
+	case 3:
+		// a byzantine RSA peer: RSASSA-PSS over the right Sig_structure but
+		// with a salt length other than the hash length (RFC 8230 section 2)
+		s := genSpec(t, SpecOpts{Kinds: []refcose.Kind{refcose.KSign1Tagged, refcose.KSign1Untagged}, MaxExtra: 2})
+		s.Key = poolRSA[t.Choose(len(poolRSA), "c03.pss.key")]
+		s.Layer.Prot = append(removeLabel(s.Layer.Prot, refcose.LAlg), KV{refcbor.Uint(refcose.LAlg), refcbor.Int(s.Key.Alg)})
+		s.Layer.Prot = removeLabel(s.Layer.Prot, refcose.LCrit)
+		k := genKnobs(t)
+		hl := refcose.HashFor(s.Key.Alg).Size()
+		k.PSSSalt = []int{-1, 1, 20, hl - 1, hl + 1}[t.Choose(5, "c03.pss.salt")]
+		a = r.ForeignWire(t, s, k, ent, false, 0, false)
+		a.Desc = "byzantine RSA peer (PSS salt length != hash length) " + s.Kind.String()
+		r.Fired("peer.pss-salt-length")
 	default:
 		a = r.GenWire(t, to, ent)
 	}
